@@ -93,10 +93,16 @@ def main():
         for pid, name, path in collect(pids, args.only):
             copy = make_copy()
             try:
-                if path.endswith('.json'):
-                    apply_json(copy, json.load(open(path)))
-                else:
-                    apply_patch(copy, path)
+                try:
+                    if path.endswith('.json'):
+                        apply_json(copy, json.load(open(path)))
+                    else:
+                        apply_patch(copy, path)
+                except RuntimeError as exc:
+                    # the mutant does not apply to the current tree any more (the code it changes was repaired / moved)
+                    print(f"{'STALE':14s} {pid} {name} [{str(exc)[:150]!r}]", flush=True)
+                    missed.append((pid, name))
+                    continue
                 caught = False
                 out = ''
                 for seed in range(1, args.seeds + 1):
